@@ -78,6 +78,8 @@ func runCase(dir string, n int, line string) (res string) {
 	var done chan error
 	var conn *varlink.Connection
 	var out []string
+	var v, p, ver, u string
+	var ifs []string
 	direct := func(req string) string {
 		c := &capture{}
 		err := svc.HandleMessage(ctx, c, []byte(req))
@@ -136,8 +138,7 @@ func runCase(dir string, n int, line string) (res string) {
 		case "info":
 			r := "info " + direct(`{"method":"org.varlink.service.GetInfo"}`)
 			if conn != nil {
-				var v, p, ver, u string
-				var ifs []string
+				// the output variables are reused across calls, as a polling client would
 				cctx, cancel := context.WithTimeout(ctx, 2*time.Second)
 				if err := conn.GetInfo(cctx, &v, &p, &ver, &u, &ifs); err != nil {
 					r += " client " + errClass(err)
